@@ -11,6 +11,7 @@ events (`setup`, `rolloutStart`, `step`, `progress`, `rolloutEnd`, `train`, `fin
 "For all histories" = for all `ops` (and, where stated, for all start states `s`, reachable or not).
 -/
 import SB3Verif.Lemmas.Learn
+import SB3Verif.Props.C12C13
 
 namespace SB3Verif.C12
 
@@ -284,6 +285,29 @@ theorem exploration_rate_in_range (cfg : Cfg) (ops : List Op) (a b f : ℚ) (hf 
   intro e he n t p hp
   have := progress_values_in_unit_interval cfg ops e he p (by rw [hp]; rfl)
   exact linearFn_bounds a b f p hf this.2
+
+/-! ## 5. Agreement with the independently written loop model of C13 (`Model/Callback.lean`) -/
+
+/-- Re-export of `C12C13.learn_loop_models_agree` (statement and translation functions: `Props/C12C13.lean`): for
+every configuration, handler (callback tree), episode-end function and fuel, a `learn` call completed by the
+`Callback.LS` machine and this model fed with the translated inputs show the same callback-visible trace and end with
+the same counter and target. -/
+theorem agrees_with_callback_loop_model {σ : Type} (cfg : Cfg) (dones : Callback.Dones)
+    (hsz : 0 < LearnCallback.rolloutParam cfg) (st0 : State) (h0 : st0.running = false) (T : ℕ) (r : Bool) (g0 : ℕ)
+    (h : σ → Callback.Call → σ × Bool) (cb : σ) (fuel : ℕ) :
+    let s := Callback.LS.runN (LearnCallback.cbCfg cfg dones) h fuel (Callback.LS.setup st0.num g0 cb T r)
+    let R := run cfg st0 (.learn T r :: LearnCallback.opsOf dones g0 s.trace)
+    s.pc = .done →
+      LearnCallback.projC s.trace = LearnCallback.projE R.2 ∧ R.1.running = false ∧ R.1.num = s.num ∧
+        R.1.total = s.total :=
+  C12C13.learn_loop_models_agree cfg dones hsz st0 h0 T r g0 h cb fuel
+
+/-- … and over any sequence of `learn` calls, each machine threading its own state. -/
+theorem agrees_with_callback_loop_model_seq {σ : Type} (cfg : Cfg) (dones : Callback.Dones)
+    (hsz : 0 < LearnCallback.rolloutParam cfg) (h : σ → Callback.Call → σ × Bool)
+    (cs : List LearnCallback.CallSpec) (g0 : ℕ) (cb : σ) :
+    LearnCallback.SeqAgree cfg dones h State.init 0 g0 cb cs :=
+  C12C13.learn_loop_models_agree_seq cfg dones hsz h cs g0 cb
 
 /-! ## Non-vacuity: the hypotheses above are met by concrete, non-trivial runs -/
 
